@@ -246,27 +246,34 @@ static size_t safec_ntoa_format(out_fct_type out, const char *funcname,
                                 char *buf, size_t len, bool negative,
                                 unsigned int base, unsigned int prec,
                                 unsigned int width, unsigned int flags) {
-    // pad leading zeros
+    const size_t ndigits = len; // digits of the value itself, without padding
+    unsigned int zwidth = width;
+
+    // the precision is the minimum number of digits, also when left-justified
+    while ((len < prec) && (len < PRINTF_NTOA_BUFFER_SIZE)) {
+        buf[len++] = '0';
+    }
+    // pad leading zeros up to the width (the '-' flag overrides '0')
     if (!(flags & FLAGS_LEFT)) {
-        if (width && (flags & FLAGS_ZEROPAD) &&
+        if (zwidth && (flags & FLAGS_ZEROPAD) &&
             (negative || (flags & (FLAGS_PLUS | FLAGS_SPACE)))) {
-            width--;
+            zwidth--;
         }
-        while ((len < prec) && (len < PRINTF_NTOA_BUFFER_SIZE)) {
-            buf[len++] = '0';
-        }
-        while ((flags & FLAGS_ZEROPAD) && (len < width) &&
+        while ((flags & FLAGS_ZEROPAD) && (len < zwidth) &&
                (len < PRINTF_NTOA_BUFFER_SIZE)) {
             buf[len++] = '0';
         }
     }
 
     // handle hash
-    if (flags & FLAGS_HASH) {
-        if (!(flags & FLAGS_PRECISION) && len &&
-            ((len == prec) || (len == width))) {
+    if ((flags & FLAGS_HASH) && (base == 8U) && len && buf[len - 1] == '0') {
+        // octal: a leading zero is already there
+    } else if (flags & FLAGS_HASH) {
+        // make room for the prefix in the zero padding (never in the digits)
+        if (!(flags & FLAGS_PRECISION) && !(flags & FLAGS_LEFT) &&
+            (flags & FLAGS_ZEROPAD) && (len > ndigits) && (len == zwidth)) {
             len--;
-            if (len && (base == 16U)) {
+            if ((len > ndigits) && (base == 16U || base == 2U)) {
                 len--;
             }
         }
@@ -314,6 +321,11 @@ static size_t safec_ntoa_long(out_fct_type out, const char *funcname,
 
     // no hash for 0 values
     if (!value) {
+        // but "%#.0o" of 0 still prints the single digit 0
+        if ((base == 8U) && (flags & FLAGS_HASH) && (flags & FLAGS_PRECISION) &&
+            (prec == 0U)) {
+            prec = 1U;
+        }
         flags &= ~FLAGS_HASH;
     }
 
@@ -344,6 +356,11 @@ static size_t safec_ntoa_long_long(out_fct_type out, const char *funcname,
 
     // no hash for 0 values
     if (!value) {
+        // but "%#.0o" of 0 still prints the single digit 0
+        if ((base == 8U) && (flags & FLAGS_HASH) && (flags & FLAGS_PRECISION) &&
+            (prec == 0U)) {
+            prec = 1U;
+        }
         flags &= ~FLAGS_HASH;
     }
 
